@@ -256,12 +256,19 @@ PosMoves ==
                      : i \in DOMAIN e.rej })
   /\ UNCHANGED <<pos, prev, stk, recs>> /\ l' = l + 1
 
+\* C15: the board with the most generated moves a hill-climbing search over accepted FENs found
+Mob ==
+  /\ IsEvent("mob")
+  /\ Report(F(~Rec[l].panic /\ Rec[l].n <= 256, "C15", "an accepted position overflows the 256-entry move buffer",
+              [fen |-> Str(Rec[l].fen), moves |-> Rec[l].n, msg |-> Rec[l].msg]))
+  /\ UNCHANGED <<pos, prev, stk, recs>> /\ l' = l + 1
+
 Panic ==
   /\ IsEvent("panic")
   /\ Report(F(FALSE, "PANIC", "the engine panicked", [msg |-> Rec[l].msg, root |-> Rec[l].root]))
   /\ pos' = NoPos /\ prev' = NoObs /\ stk' = << >> /\ recs' = << >> /\ l' = l + 1
 
-Next == New \/ Push \/ Pop \/ Query \/ Reimp \/ Mir \/ Var \/ PosMoves \/ Panic
+Next == New \/ Push \/ Pop \/ Query \/ Reimp \/ Mir \/ Var \/ PosMoves \/ Mob \/ Panic
 Spec == Init /\ [][Next]_vars
 
 \* every event consumed = one state per event plus the initial state
